@@ -2,6 +2,7 @@
 EXTENDS RpycAsync
 MCTimeouts == {NoneT, 0 - 1, 0, 1, 2}
 AllOps == {"set_expiry", "add_callback", "expired", "ready", "poll", "wait"}
+MCKinds == {"plain", "chain"}
 WaitOps == {"set_expiry", "wait"}
 WaitTimeouts == {NoneT, 0, 1, 2}
 ===================================================================================
